@@ -114,6 +114,19 @@ CORPUS_SETS = [
         '<stop offset="0" stop-color="#ff0000"/><stop offset="1" stop-color="#0000ff"/></linearGradient></defs>'
         '<path d="M10,90 L90,90 L50,10 Z" fill="#00aa00"/><path d="M5,95 L7,95 L6,93 Z" fill="url(#g)"/></svg>',
     ]),
+    # a translucent black donor (no fill attribute, only opacity) reused by an opaque copy in the same glyph: the <use>
+    # must not inherit the donor's opacity
+    ("translucent-black-donor", ["picosvg", "glyf_colr_1", "glyf_colr_0"], 0.1, [
+        SVG_HEAD + '<path d="M30,40 L90,40 L100,100 L20,100 Z" fill="black" opacity="0.3"/>'
+        '<path d="M24,34 L84,34 L94,94 L14,94 Z" fill="red"/><path d="M50,10 L60,10 L60,20 L50,20 Z" fill="blue" opacity="0.5"/></svg>',
+    ]),
+    # two different donors reused under one and the same transform in one glyph (mirror images, copies moved alike)
+    ("two-donors-one-transform", ["glyf_colr_0", "glyf_colr_1", "picosvg"], 0.1, [
+        SVG_HEAD + '<path d="M30,50 L44,46 L50,60 L36,66 Z" fill="#222222"/><path d="M28,36 L50,30 L52,36 Z" fill="#884400"/>'
+        '<path d="M98,50 L84,46 L78,60 L92,66 Z" fill="#222222"/><path d="M100,36 L78,30 L76,36 Z" fill="#884400"/></svg>',
+        SVG_HEAD + '<path d="M30,20 L40,20 L38,80 L32,80 Z" fill="red"/><path d="M30,90 L40,90 L40,100 L30,100 Z" fill="red"/>'
+        '<path d="M70,20 L80,20 L78,80 L72,80 Z" fill="blue"/><path d="M70,90 L80,90 L80,100 L70,100 Z" fill="blue"/></svg>',
+    ]),
     # reused shapes that carry gradients with their own (non-uniform) gradientTransform, moved and scaled
     ("gradient-on-reused-shape", ["glyf_colr_1", "picosvg"], 0.1, [
         SVG_HEAD + '<defs><radialGradient id="a" gradientUnits="userSpaceOnUse" cx="40" cy="70" r="14" gradientTransform="matrix(1 0 0 0.5 0 35)">'
